@@ -121,6 +121,8 @@ type Node struct {
 	// Knobs (set by the driver under Cluster.Lock or before traffic).
 	// Handler, when set, is consulted first; return handled=false to fall through to the default semantics.
 	Handler func(c *Conn, args [][]byte) (Reply, bool)
+	// Before, when set, runs after a request has been read and before it is dispatched, with no lock held; it may block.
+	Before func(args [][]byte)
 	// Delay returns the delay applied before the reply of a request is written.
 	Delay func(args [][]byte) time.Duration
 	// Silent makes the node read requests but never answer.
@@ -502,6 +504,9 @@ func (n *Node) serve(c *Conn) {
 		if !okArgs {
 			rep = Reply{Raw: resp.Encode(resp.E("ERR Protocol error: expected array of bulk strings"))}
 		} else {
+			if n.Before != nil {
+				n.Before(args) // may block (no lock is held): the request is taken but not yet looked at
+			}
 			rep = n.dispatch(c, args)
 		}
 		slept := false
@@ -529,7 +534,10 @@ func (n *Node) serve(c *Conn) {
 			return
 		}
 		atomic.AddInt64(&n.cl.answered, 1)
-		if rd.Buffered() == 0 || slept {
+		// replies are flushed unless a complete further request is already buffered (flushing only when the input buffer is empty
+		// would hold replies back while waiting for the rest of a partial request - and the proxy may be waiting for exactly
+		// those replies before it can send the rest)
+		if slept || !rd.CompleteBuffered() {
 			if err := bw.Flush(); err != nil {
 				return
 			}
